@@ -124,6 +124,9 @@ def ev(e, env):
             return list(zip(*[ev(a, env) for a in e.args]))
         if name == "range":
             return list(range(*[ev(a, env) for a in e.args]))
+        if name in ("list", "tuple", "reversed", "sorted") and len(e.args) == 1:
+            v = list(ev(e.args[0], env))
+            return list(reversed(v)) if name == "reversed" else (sorted(v) if name == "sorted" else v)
         if name in ("bool", "float", "int"):
             return {"bool": bool, "float": float, "int": int}[name](ev(e.args[0], env))
         if name == "enumerate":
